@@ -20,6 +20,9 @@ func c06(c *q.Ctx) {
 	ledgerMetaStaging(c)
 	metaCopiesDistinct(c)
 	utxoTotalStaging(c)
+	poolRecordAsPublished(c)
+	cacheFillerPerTx(c)
+	keyLockProtocol(c)
 	const st = "bcs/ledger/xledger/state::"
 	const led = "bcs/ledger/xledger/ledger::"
 	const miner = "kernel/engines/xuperos/miner::"
